@@ -214,6 +214,16 @@ if .a == 1 { x = -0.0 }
 def signedZeroPrefix : Exprs :=
   (.cons (.asg (.internal "x" []) (.lit (.float 0))) (.cons (.ifte (.cons (.op .eq (.qext false [.field [97]]) (.lit (.int 1))) .nil) (.cons (.asg (.internal "x" []) (.lit (.float 9223372036854775808))) .nil) false .nil) .nil))
 
+/-- D_ctor_poststate: the predicate is checked in the state after it was compiled
+```
+x = "s"
+if { y = x; x = true; y } { 1 } else { 2 }
+``` -/
+def ctorPost : Exprs :=
+  (.cons (.asg (.internal "x" []) (.lit (.bytes [115]))) (.cons (.ifte (.cons (.blk (.cons (.asg (.internal "y" []) (.var "x")) (.cons (.asg (.internal "x" []) (.lit (.bool true))) (.cons (.var "y") .nil)))) .nil) (.cons (.lit (.int 1)) .nil) true (.cons (.lit (.int 2)) .nil)) .nil))
+
+def ctorPostEv : Value := (.obj .nil)
+
 /-! ### C01 -/
 
 /-- the result of the program on the event, and its reported kinds -/
